@@ -52,11 +52,19 @@ def series_data(entry, seed, container="series"):
 
 def panel_data(entry, seed, container):
     ncol = 2 if entry.get("multivariate") and entry["name"] in ("column_ensemble",) else 1
-    X, y = E.make_panel(10, ncol, 12, seed)
+    # classifiers / regressors get a noisy, weakly separable panel so that random choices inside matter
+    noisy = entry["kind"] in ("classifier", "regressor")
+    X, y = E.make_panel(16 if noisy else 10, ncol, 12 if not noisy else 24, seed, noise=6.0 if noisy else 0.5)
     if container == "numpy3d":
         from sktime.utils.data_processing import from_nested_to_3d_numpy
         X = from_nested_to_3d_numpy(X)
     return X, y
+
+
+def apply_panel(entry, seed, container):
+    """Unseen instances to apply a fitted classifier / regressor to (trees memorise their training data)."""
+    X, _ = panel_data(entry, seed + 1000, container)
+    return X
 
 
 def run_scenario(entry, plan, container, seed, tid):
@@ -72,13 +80,14 @@ def run_scenario(entry, plan, container, seed, tid):
             return series_data({"missing": False}, seed), None
         return panel_data(entry, seed, container)
     X, y = fresh_data()
+    Xa = apply_panel(entry, seed, container) if kind in ("classifier", "regressor") else None
     args_fit = (X,) if y is None else (X, y if kind != "regressor" else np.asarray(y, dtype=float))
     # input of inverse_transform: produced by an independent twin so that the plan is not disturbed
     inv_in = None
     if "inverse_transform" in entry["methods"]:
         X0, _ = fresh_data()
         inv_in = entry["factory"]().fit(X0).transform(X0)
-    caller = [X, y, inv_in]
+    caller = [X, y, inv_in, Xa]
     d0 = fp(caller)
 
     def call(est, m, Xarg, inv):
@@ -86,7 +95,7 @@ def run_scenario(entry, plan, container, seed, tid):
             return est.inverse_transform(inv)
         if kind == "forecaster":
             return est.predict([1, 2, 3]) if m == "predict" else est.predict([-2, -1, 0, 1])
-        return getattr(est, m)(Xarg)
+        return getattr(est, m)(Xarg if Xa is None else Xa)
     import joblib
 
     def body():
